@@ -35,7 +35,7 @@ func runC15(cfg *vh.Config) error {
 	if err != nil {
 		return err
 	}
-	n := cfg.Scale(420, 9000)
+	n := cfg.Scale(420, 3000)
 	r := cfg.R
 	distinct := vh.Distinct{}
 
